@@ -270,35 +270,66 @@ def task_products(params, rec):
         dt = [numpy.float32, numpy.float64, numpy.float16][int(rng.integers(0, 3))]
         kw = flags()
         sizes = tuple(int(rng.integers(6, 14)) for _ in range(3))
-        bnd = None
-        if rng.random() < 0.4:
+        def draw_bound():
+            if rng.random() < 0.5:
+                return None
             lo, hi = sorted([float(2.0 ** rng.uniform(-8, 8)), float(2.0 ** rng.uniform(-8, 8))])
-            if lo != hi:
-                bnd = (dt(lo), dt(hi))
-        one = lambda n: utils.real_samples(n, dtype=dt, **kw, **(dict(min_value=bnd[0], max_value=bnd[1]) if bnd else {}))  # noqa
+            if rng.random() < 0.25:
+                lo = -lo  # a range across zero
+            return (dt(lo), dt(hi)) if dt(lo) != dt(hi) else None
+
+        # one bound per dimension (the generators take scalars - one bound for every dimension - or tuples); 4 = the two parts of two complex operands
+        if rng.random() < 0.35:
+            b_ = draw_bound()
+            B = [b_] * 4
+        else:
+            B = [draw_bound() for _ in range(4)]
+        bnd = B[0]
+        same = all(b_ is B[0] for b_ in B)
+
+        def bkw(b_):
+            return dict(min_value=b_[0], max_value=b_[1]) if b_ else {}
+
+        def tup(bs, names):
+            """keyword arguments for several dimensions: scalars when all dimensions share one bound, tuples otherwise"""
+            if all(b_ is None for b_ in bs):
+                return {}
+            if all(b_ is bs[0] for b_ in bs) and rng.random() < 0.5:
+                return {names[0]: bs[0][0], names[1]: bs[0][1]}
+            return {names[0]: tuple(b_[0] if b_ else None for b_ in bs), names[1]: tuple(b_[1] if b_ else None for b_ in bs)}
+
         try:
-            s1, s2, s3 = one(sizes[0]), one(sizes[1]), one(sizes[2])
+            s1, s2, s3 = (utils.real_samples(sizes[j], dtype=dt, **kw, **bkw(B[j])) for j in range(3))
         except Exception:
             continue
-        bk = dict(min_value=bnd[0], max_value=bnd[1]) if bnd else {}
         rec.count("evaluations", 3)
         rec.count("products:judged", 3)
-        wit = dict(dtype=numpy.dtype(dt).name, sizes=sizes, flags=kw, bounds=bnd)
+        if not same:
+            rec.count("products:per-dimension-bounds")
+        wit = dict(dtype=numpy.dtype(dt).name, sizes=sizes, flags=kw, bounds=[list(b_) if b_ else None for b_ in B])
         # pair
         try:
-            p1, p2 = utils.real_pair_samples(sizes[:2], dtype=dt, **kw, **bk)
+            p1, p2 = utils.real_pair_samples(sizes[:2], dtype=dt, **kw, **tup(B[:2], ("min_value", "max_value")))
             e1 = numpy.tile(s1, s2.size)
             e2 = numpy.repeat(s2, s1.size)
             if not (eqv(p1, e1) and eqv(p2, e2)):
                 rec.violation("real_pair_samples-product", wit)
-            t1, t2, t3 = utils.real_triple_samples(sizes, dtype=dt, **kw, **bk)
+            t1, t2, t3 = utils.real_triple_samples(sizes, dtype=dt, **kw, **tup(B[:3], ("min_value", "max_value")))
             g1, g2, g3 = numpy.meshgrid(s1, s2, s3, indexing="ij")
             if not (eqv(t1, g1.ravel()) and eqv(t2, g2.ravel()) and eqv(t3, g3.ravel())):
                 rec.violation("real_triple_samples-product", wit)
             if dt is not numpy.float16:
                 cdt = {numpy.float32: numpy.complex64, numpy.float64: numpy.complex128}[dt]
-                ck = dict(min_real_value=bnd[0], max_real_value=bnd[1], min_imag_value=bnd[0], max_imag_value=bnd[1]) if bnd else {}
-                z = utils.complex_samples(sizes[:2], dtype=dt, **kw, **ck)
+
+                def ckw(br, bi):
+                    d = {}
+                    if br:
+                        d.update(min_real_value=br[0], max_real_value=br[1])
+                    if bi:
+                        d.update(min_imag_value=bi[0], max_imag_value=bi[1])
+                    return d
+
+                z = utils.complex_samples(sizes[:2], dtype=dt, **kw, **ckw(B[0], B[1]))
                 ok = z.dtype == numpy.dtype(cdt) and z.shape == (s2.size, s1.size)
                 if ok:
                     re_e = numpy.broadcast_to(s1[None, :], z.shape)
@@ -306,11 +337,12 @@ def task_products(params, rec):
                     ok = eqv(numpy.ascontiguousarray(z.real), numpy.ascontiguousarray(re_e)) and eqv(numpy.ascontiguousarray(z.imag), numpy.ascontiguousarray(im_e))
                 if not ok:
                     rec.violation("complex_samples-product", wit)
-                if i % 4 == 0:
+                if i % 3 == 0:
                     sz = ((6, 7), (7, 6))
-                    zz1, zz2 = utils.complex_pair_samples(sz, dtype=dt, **kw, **ck)
-                    a = utils.complex_samples(sz[0], dtype=dt, **kw, **ck)
-                    b = utils.complex_samples(sz[1], dtype=dt, **kw, **ck)
+                    pk = dict(tup([B[0], B[2]], ("min_real_value", "max_real_value")), **tup([B[1], B[3]], ("min_imag_value", "max_imag_value")))
+                    zz1, zz2 = utils.complex_pair_samples(sz, dtype=dt, **kw, **pk)
+                    a = utils.complex_samples(sz[0], dtype=dt, **kw, **ckw(B[0], B[1]))
+                    b = utils.complex_samples(sz[1], dtype=dt, **kw, **ckw(B[2], B[3]))
                     ok = zz1.shape == zz2.shape == (a.shape[0] * b.shape[0], a.shape[1] * b.shape[1])
                     if ok:
                         # every (a-element, b-element) pair appears exactly once
@@ -318,8 +350,9 @@ def task_products(params, rec):
                         pairs = set(zip(map(key, zz1.ravel()), map(key, zz2.ravel())))
                         want = set((key(x), key(y)) for x in a.ravel() for y in b.ravel())
                         ok = pairs == want and zz1.size == a.size * b.size
+                    rec.count("products:complex-pair-judged")
                     if not ok:
-                        rec.violation("complex_pair_samples-product", wit)
+                        rec.violation("complex_pair_samples-product", dict(wit, keywords={k_: [None if v_ is None else float(v_) for v_ in v] if isinstance(v, tuple) else float(v) for k_, v in pk.items()}))
         except Exception as e:
             rec.violation("product-exception", dict(wit, exc=f"{type(e).__name__}: {e}"[:200]))
         rec.cls("product", numpy.dtype(dt).name, tuple(sorted(kw.items())), bnd is not None)
